@@ -167,8 +167,8 @@ def run(repo, chk, tier):
         # checkpoint after accumulation, unless the heuristic is Constant
         const_dec = [(t, tr) for t, tr, _ in p.tests if t in (E(f"{args}.heuristic != 'Constant'"), E(f"{args}.heuristic == 'Constant'"))]
         is_const = any((t[1] == '==') == tr for t, tr in const_dec) if const_dec else None
-        cks = [(t, c) for t, c in p.calls if t[:2] == ('call', ('lib', CKPT))]
-        acc_after = term_of(fn, env[acc], inline=True) if env.get(acc) is not None else None
+        cks = [(term_of(fn, c['call'], inline=False), c) for t, c in p.calls if t[:2] == ('call', ('lib', CKPT))]
+        acc_after = term_of(fn, env[acc], inline=False) if env.get(acc) is not None else None
         extended = any(isinstance(c['call'].func, ast.Attribute) and c['call'].func.attr == 'extend' and isinstance(c['call'].func.value, ast.Name) and c['call'].func.value.id == acc for _, c in p.calls)
         good_ck = [1 for t, c in cks if t[2] and (t[2][0] == acc_after or (extended and t[2][0] == ('name', acc) and c['seq'] > max(cc['seq'] for _, cc in p.calls if isinstance(cc['call'].func, ast.Attribute) and cc['call'].func.attr == 'extend')))]
         if is_const:
@@ -206,8 +206,9 @@ def run(repo, chk, tier):
 
     # -- 5 tail
     bcalls = [n for n in own_nodes(fn.node) if isinstance(n, ast.Assign) and isinstance(n.value, ast.Call) and m.dotted(n.value.func) == BATCH]
-    tail = [b for b in bcalls if not any(x is b for x in ast.walk(loop)) and b.lineno > loop.end_lineno]
-    tail_rule(repo, chk, fn, cfg, loop, buf, acc, tail, E, args)
+    after = _after(fn, loop, par)
+    tail = [b for b in bcalls if id(b) in after]
+    tail_rule(repo, chk, fn, cfg, loop, buf, acc, tail, E, args, after)
 
     # -- 6 aggregator
     aggregator(repo, chk, fn, acc)
@@ -235,14 +236,29 @@ def _accumulator(fn, summary):
     return None
 
 
-def tail_rule(repo, chk, fn, cfg, loop, buf, acc, tail, E, args):
+def _after(fn, node, par):
+    """ids of all nodes of the statements that follow `node` (in its block and in the enclosing blocks)"""
+    out = set()
+    cur = node
+    while cur is not None and cur is not fn.node:
+        p = par.get(cur)
+        for f in ('body', 'orelse', 'finalbody'):
+            blk = getattr(p, f, None)
+            if isinstance(blk, list) and cur in blk:
+                for later in blk[blk.index(cur) + 1:]:
+                    out |= {id(x) for x in ast.walk(later)}
+        cur = p
+    return out
+
+
+def tail_rule(repo, chk, fn, cfg, loop, buf, acc, tail, E, args, after=None):
     m = fn.module
     if len(tail) != 1:
         chk.bad('C08.5a', 'R14', fn.site(), 'if len(buffer) > 2**10: compute_batch_ranking(...)', f'{len(tail)} tail evaluations after the loop (expected one): a final partial batch of more than 1024 rows must be used')
         return
     tb = tail[0]
     tnode = cfg.node_of(tb)
-    guards = [g for g in cfg.nodes if g.kind == 'branch' and g.test is not None and isinstance(g.ast, ast.If) and cfg.dominates(g.id, tnode.id) and g.ast.lineno > loop.end_lineno]
+    guards = [g for g in cfg.nodes if g.kind == 'branch' and g.test is not None and isinstance(g.ast, ast.If) and cfg.dominates(g.id, tnode.id) and (id(g.ast) in after if after is not None else g.ast.lineno > loop.end_lineno)]
     tt = [(term_of(fn, g.test, inline=True), g.polarity) for g in guards]
     want = E(f'1024 < len({buf})')
     ok = (want, True) in tt and len(guards) == 1
